@@ -257,9 +257,32 @@ func (c *Ctx) deepFreshIn(fn *ssa.Function, v ssa.Value, depth int) (bool, strin
 				switch r := ref.(type) {
 				case *ssa.Store:
 					if r.Addr == ssa.Value(a) {
-						// whole-struct store: the stored struct must itself be fresh
+						// whole-struct store: the stored struct must itself be fresh - or every reference field of it is given a fresh
+						// value afterwards (a by-value copy of the receiver whose owned members are then replaced)
 						if ok, w := c.deepFresh(r.Val, depth+1); !ok {
-							return false, w
+							var shared []string
+							for fi := 0; fi < st.NumFields(); fi++ {
+								ft := st.Field(fi).Type()
+								if !isRefType(ft) && !hasRefField(ft) {
+									continue
+								}
+								replaced := false
+								for _, ref2 := range *a.Referrers() {
+									if fa, ok := ref2.(*ssa.FieldAddr); ok && fa.Field == fi {
+										for _, r3 := range *fa.Referrers() {
+											if s2, ok := r3.(*ssa.Store); ok && s2.Addr == ssa.Value(fa) {
+												replaced = true
+											}
+										}
+									}
+								}
+								if !replaced {
+									shared = append(shared, st.Field(fi).Name())
+								}
+							}
+							if len(shared) > 0 {
+								return false, w + " (struct copy; field(s) " + strings.Join(shared, ", ") + " stay shared)"
+							}
 						}
 					}
 				case *ssa.FieldAddr:
@@ -274,6 +297,29 @@ func (c *Ctx) deepFreshIn(fn *ssa.Function, v ssa.Value, depth int) (bool, strin
 				}
 			}
 			return true, ""
+		}
+		// a field of a struct that is being built in this function: what was stored into it
+		if fa, ok := u.X.(*ssa.FieldAddr); ok {
+			if a, ok := fa.X.(*ssa.Alloc); ok {
+				var stored []ssa.Value
+				for _, ref := range *a.Referrers() {
+					if f2, ok := ref.(*ssa.FieldAddr); ok && f2.Field == fa.Field {
+						for _, r2 := range *f2.Referrers() {
+							if st, ok := r2.(*ssa.Store); ok && st.Addr == ssa.Value(f2) {
+								stored = append(stored, st.Val)
+							}
+						}
+					}
+				}
+				if len(stored) > 0 {
+					for _, sv := range stored {
+						if ok, w := c.deepFresh(sv, depth+1); !ok {
+							return false, w
+						}
+					}
+					return true, ""
+				}
+			}
 		}
 		return false, "load of " + exprStr(u.X)
 	}
@@ -620,6 +666,21 @@ func ruleHandlersOwnCopy(c *Ctx, rule string) {
 						}
 					}
 					return len(p.Edges) > 0
+				}
+				// the variable that holds the copy lives in memory because a closure of the handler captures it
+				if u, ok := v.(*ssa.UnOp); ok && u.Op == token.MUL && d < 4 {
+					if a, ok := u.X.(*ssa.Alloc); ok {
+						n := 0
+						for _, ref := range *a.Referrers() {
+							if st, ok := ref.(*ssa.Store); ok && st.Addr == ssa.Value(a) {
+								if !isCopy(st.Val, d+1) {
+									return false
+								}
+								n++
+							}
+						}
+						return n > 0
+					}
 				}
 				return false
 			}
